@@ -108,6 +108,16 @@ func (mod *Module) findIdentityBase(baseStr string) (*resolvedIdentity, []error)
 		}
 		keyName := fmt.Sprintf("%s:%s", m.FullName(), baseName)
 		base, ok = typeDict.identities.dict[keyName]
+		if !ok && mod.Kind() == "submodule" {
+			// The identities of a submodule are filed under the
+			// modules that include it, which need not be the
+			// latest revision of the module it belongs to.
+			for _, o := range mod.Modules.revisions(m.Name) {
+				if base, ok = typeDict.identities.dict[fmt.Sprintf("%s:%s", o.FullName(), baseName)]; ok {
+					break
+				}
+			}
+		}
 		if !ok {
 			errs = append(errs, fmt.Errorf("%s: can't resolve the local base %s as %s", source, baseStr, keyName))
 		}
@@ -162,8 +172,11 @@ func (ms *Modules) resolveIdentities() []error {
 				continue
 			}
 			for _, i := range in.Module.Identities() {
-				keyName, r := newResolvedIdentity(in.Module, i)
-				ms.typeDict.identities.dict[keyName] = *r
+				// They are filed under the module that includes the
+				// submodule, not under whatever revision the bare
+				// name of the module it belongs to denotes.
+				_, r := newResolvedIdentity(in.Module, i)
+				ms.typeDict.identities.dict[fmt.Sprintf("%s:%s", mod.FullName(), i.Name)] = *r
 			}
 		}
 	}
